@@ -11,6 +11,7 @@ import (
 	"go/types"
 	"os"
 	"path/filepath"
+	"runtime"
 	"sort"
 	"strconv"
 	"strings"
@@ -215,6 +216,20 @@ func cmdCheck(args []string) int {
 			}
 		}()
 	}
+	if os.Getenv("GOVC_DEBUG") == "2" {
+		debugDead = func(why string, t *Term) {
+			fmt.Fprintf(os.Stderr, "DEAD(%s): %s\n", why, showTerm(t, 5))
+			buf := make([]byte, 4096)
+			n := runtime.Stack(buf, false)
+			k := 0
+			for _, ln := range strings.Split(string(buf[:n]), "\n") {
+				if strings.Contains(ln, "/verif/engine/") && k < 9 {
+					fmt.Fprintf(os.Stderr, "    %s\n", strings.TrimSpace(ln))
+					k++
+				}
+			}
+		}
+	}
 	ex := NewExec(prog, specs)
 	ex.setupGlobals(pkgs)
 	axioms := map[string][]*Term{}
@@ -275,7 +290,7 @@ func cmdCheck(args []string) int {
 		}
 		return nil
 	}
-	var violations, discharged, total, trivial, covers, coversOK int
+	var violations, discharged, total, trivial, covers, coversOK, coverCalls, coverCallsOK int
 	perBackend := map[string]int{}
 	var solverS float64
 	var samples []map[string]interface{}
@@ -285,6 +300,19 @@ func cmdCheck(args []string) int {
 	for _, r := range results {
 		g := r.Group
 		solverS += r.Seconds
+		if g.Kind == "cover-call" {
+			// a callee's postcondition contradicting the call-site state would make everything after it vacuous:
+			// only a definite unsat is an alarm (quantified contexts often answer unknown)
+			coverCalls++
+			if r.Verdict == "unsat" && preSatisfiable(r.Group, filepath.Join(work, "pre"), timeout) {
+				violations++
+				path := writeReplay(*verif, *prop, r, "vacuous: the callee's assumed contract is inconsistent with the state at this call site")
+				lines = append(lines, fmt.Sprintf("VIOLATION property=%s replay=%s obligation=%s no-failing-input-found", *prop, path, g.Name))
+			} else if r.Verdict == "sat" {
+				coverCallsOK++
+			}
+			continue
+		}
 		if g.Kind == "cover" {
 			covers++
 			if r.Verdict == "sat" {
@@ -330,6 +358,11 @@ func cmdCheck(args []string) int {
 			if len(samples) < 3 {
 				samples = append(samples, map[string]interface{}{"obligation": r.Group.Name, "kind": r.Group.Kind, "verdict": r.Verdict, "solver": r.Solver})
 			}
+		}
+	}
+	if os.Getenv("GOVC_LIST") != "" {
+		for _, r := range results {
+			fmt.Fprintf(os.Stderr, "obl %-90s %-8s paths=%d\n", r.Group.Name, r.Verdict, len(r.Group.Obls))
 		}
 	}
 	if *verbose {
@@ -402,6 +435,30 @@ func cmdCheck(args []string) int {
 		return 1
 	}
 	return 0
+}
+
+// preSatisfiable: was the path leading to the call feasible at all? (an infeasible path makes the post-state trivially
+// unsatisfiable without any fault of the callee's contract)
+func preSatisfiable(g *Group, dir string, timeout int) bool {
+	os.MkdirAll(dir, 0o755)
+	for i, o := range g.Obls {
+		if o.PrePC == nil {
+			continue
+		}
+		p := NewPrinter()
+		as := []*Term{o.PrePC}
+		as = append(as, boundFactsFor(as...)...)
+		q := p.Query(as, nil)
+		f := filepath.Join(dir, fmt.Sprintf("%s.%d.smt2", sanitize(g.Name), i))
+		if len(f) > 200 {
+			f = filepath.Join(dir, fmt.Sprintf("pre%d.%d.smt2", len(g.Name), i))
+		}
+		os.WriteFile(f, []byte(q), 0o644)
+		if v, _, _, _, _, _ := race(q, f, 5, false); v == "sat" {
+			return true
+		}
+	}
+	return false
 }
 
 func round3(f float64) float64 { return float64(int(f*1000)) / 1000 }
